@@ -139,10 +139,21 @@ def oracle_cut(ts, diffs, c):
 
 
 def confirm(cand, known):
+    """native replay at stable height 0 and, if that shows nothing, below a stable prefix of 3 blocks (anchor height 3)"""
+    doc = None
+    for prefix in (0, 3):
+        verdict, d = confirm_at(cand, prefix)
+        doc = doc or d
+        if verdict == 'violation':
+            return verdict, d
+    return 'not-reproduced', doc
+
+
+def confirm_at(cand, prefix):
     ts = btc.TreeScenario(list(cand['shape'][1]))
     diffs = {int(k): v for k, v in cand['diffs'].items()}
     c = cand.get('c') if isinstance(cand.get('c'), int) else 1
-    ops = native_ops(ts, diffs, extra=[dict(op='main_chain'), dict(op='utxos', addr=7, min_conf=c)])
+    ops = native_ops(ts, diffs, stable_prefix=prefix, extra=[dict(op='main_chain'), dict(op='utxos', addr=7, min_conf=c)])
     res = C.run_native([dict(ops=ops)], tag='c04cx')[0]
     mc, ut = res[-2:]
     best, k = oracle_cut(ts, diffs, c)
@@ -152,9 +163,9 @@ def confirm(cand, known):
             problems.append('expected MinConfirmationsTooLarge{given:%d,max:%d}' % (c, len(best)))
     else:
         exp = sorted(1000 + i for i in best[:k + 1])
-        if ut.get('tip') != best[k] or ut.get('tip_height') != k or sorted(u['value'] for u in ut.get('utxos', [])) != exp:
-            problems.append('expected tip %s at height %d with outputs of %s' % (best[k], k, best[:k + 1]))
-    doc = dict(property=PROP, role=cand['role'], summary=dict(parents=ts.parents, difficulty=diffs, min_confirmations=c),
+        if ut.get('tip') != best[k] or ut.get('tip_height') != prefix + k or sorted(u['value'] for u in ut.get('utxos', [])) != exp:
+            problems.append('expected tip %s at height %d with outputs of %s' % (best[k], prefix + k, best[:k + 1]))
+    doc = dict(property=PROP, role=cand['role'], summary=dict(parents=ts.parents, difficulty=diffs, min_confirmations=c, stable_prefix=prefix),
                expected=dict(best_chain=best, cut_index=k), native=dict(main_chain=mc, utxos=ut), problems=problems,
                scenario=dict(ops=ops))
     if not problems:
